@@ -57,7 +57,7 @@ def run_variant(v: dict, repo: str = "/repo") -> dict:
             open(p, "w").write(s)
         ev = os.path.join(tmp, "evidence")
         r = subprocess.run([PY, "-m", "sa.check", "--property", v["property"], "--repo", tmp, "--evidence-dir", ev],
-                           cwd=ROOT, capture_output=True, text=True, timeout=300)
+                           cwd=ROOT, capture_output=True, text=True, timeout=900, env={**os.environ, "SA_WORKERS": "1"})  # the variants already fill the cores
         out = r.stdout
         rules_hit = sorted({ln.split("rule=")[1].split()[0] for ln in out.splitlines() if ln.strip().startswith("rule=")})
         kind = v.get("kind", "mutant")
